@@ -338,3 +338,148 @@ Section CallRm.
     - exists e. rewrite (bind_err _ _ _ _ _ RD). reflexivity.
   Qed.
 End CallRm.
+
+(* ---- PUSH imm32 / PUSH imm8 (sign-extended to 64 bits by the decoder), exactly ---- *)
+From AxG Require Import I_push.
+
+Section PushImm.
+  Variables (c : cfg) (i : instr) (s : mstate).
+  Hypothesis HI : Inv (mem s).
+
+  Lemma push64_tail v :
+    (exists s', emu_push 8 v s = Some s' /\
+       (v_rsp <- reg_read_64 c RSP;; _ <- mem_write_64 v_rsp v;; _ <- reg_write_64 c RSP (wsub U64 v_rsp 8);; ret tt)%M s = (Ok tt, s')) \/
+    (emu_push 8 v s = None /\ exists e,
+       (v_rsp <- reg_read_64 c RSP;; _ <- mem_write_64 v_rsp v;; _ <- reg_write_64 c RSP (wsub U64 v_rsp 8);; ret tt)%M s = (Err e, s)).
+  Proof.
+    rewrite (bind_ok _ _ _ _ _ (rr64_rsp c s)). unfold emu_push, store.
+    destruct (write_never_panics (regs s RSP) (le_bytes 8 v) s HI) as [[s1 E]|[e E]].
+    - left. rewrite E. eexists. split; [reflexivity|].
+      assert (E' : mem_write_64 (regs s RSP) v s = (Ok tt, s1)) by (rewrite typed_write_64_is_le; exact E).
+      rewrite (bind_ok _ _ _ _ _ E'). rewrite (bind_ok _ _ _ _ _ (rw64_rsp c _ s1)). unfold ret. reflexivity.
+    - right. rewrite E. split; [reflexivity|]. exists e.
+      assert (E' : mem_write_64 (regs s RSP) v s = (Err e, s)) by (rewrite typed_write_64_is_le; exact E).
+      unfold bind. rewrite E'. reflexivity.
+  Qed.
+
+  Theorem pushq_imm32_exact :
+    i_code i = C_Pushq_imm32 -> i_op0_kind i = OK_Immediate32to64 -> 0 <= i_immediate32to64 i < 2 ^ 64 ->
+    let v := i_immediate32to64 i in
+    (exists s', emu_push 8 v s = Some s' /\ instr_pushq_imm64 c i s = (Ok tt, s')) \/
+    (emu_push 8 v s = None /\ exists e, instr_pushq_imm64 c i s = (Err e, s)).
+  Proof.
+    intros Ec K R v. unfold instr_pushq_imm64. rewrite Ec, K.
+    rewrite (bind_ok _ _ _ _ _ (dbg_code_ok c s _ eq_refl)). cbv zeta.
+    assert (E : cast I64 U64 (i_immediate32to64 i) = v).
+    { unfold v, cast, Bits.sem, enc, modulus; cbn [signed width]. change (2 ^ (64 - 1)) with 9223372036854775808.
+      change (2 ^ 64) with 18446744073709551616 in *. destruct (i_immediate32to64 i <? 9223372036854775808); lia. }
+    rewrite E.
+    destruct (push64_tail v) as [(s' & P & T)|(P & e & T)].
+    - left. exists s'. split; [exact P|]. rewrite (bind_ok _ _ _ _ _ T). reflexivity.
+    - right. split; [exact P|]. exists e. unfold bind at 1. rewrite T. reflexivity.
+  Qed.
+
+  Theorem pushq_imm8_exact :
+    i_code i = C_Pushq_imm8 -> i_op0_kind i = OK_Immediate8to64 -> 0 <= i_immediate8to64 i < 2 ^ 64 ->
+    let v := i_immediate8to64 i in
+    (exists s', emu_push 8 v s = Some s' /\ instr_pushq_imm8 c i s = (Ok tt, s')) \/
+    (emu_push 8 v s = None /\ exists e, instr_pushq_imm8 c i s = (Err e, s)).
+  Proof.
+    intros Ec K R v. unfold instr_pushq_imm8. rewrite Ec, K.
+    rewrite (bind_ok _ _ _ _ _ (dbg_code_ok c s _ eq_refl)). cbv zeta.
+    assert (E : cast I64 U64 (i_immediate8to64 i) = v).
+    { unfold v, cast, Bits.sem, enc, modulus; cbn [signed width]. change (2 ^ (64 - 1)) with 9223372036854775808.
+      change (2 ^ 64) with 18446744073709551616 in *. destruct (i_immediate8to64 i <? 9223372036854775808); lia. }
+    rewrite E.
+    destruct (push64_tail v) as [(s' & P & T)|(P & e & T)].
+    - left. exists s'. split; [exact P|]. rewrite (bind_ok _ _ _ _ _ T). reflexivity.
+    - right. split; [exact P|]. exists e. unfold bind at 1. rewrite T. reflexivity.
+  Qed.
+End PushImm.
+
+(* ---- PUSH r16 / POP r16, exactly (operand-size prefix: two bytes, RSP moves by 2) ---- *)
+From AxG Require Import I_pop.
+From AxV Require Import MovxP.
+
+Lemma sup_of_gpr16 r : is_gpr16 r = true -> sup_of_iced r = Ok r.
+Proof. intros H. unfold sup_of_iced. destruct r; try discriminate H; reflexivity. Qed.
+
+Section Stack16.
+  Variables (c : cfg) (i : instr) (s : mstate).
+  Hypothesis Hwf : wf_regs s.
+  Hypothesis HI : Inv (mem s).
+  Hypothesis Hr : is_gpr16 (i_op0_register i) = true.
+
+  Let r := i_op0_register i.
+
+  (* POP r16: two bytes are loaded from RSP+2 (nothing beyond them is touched - the step succeeds whenever
+     those two bytes are readable), the low 16 bits of the destination are replaced, RSP becomes RSP+2 *)
+  Theorem pop_r16_exact :
+    i_code i = C_Pop_r16 ->
+    match emu_pop 2 s with
+    | Some (v, _) =>
+        instr_pop_r16 c i s = (Ok tt, set_regs s (upd (rf_write (regs s) r v) RSP ((regs s RSP + 2) mod 2 ^ 64)))
+    | None => exists e, instr_pop_r16 c i s = (Err e, s)
+    end.
+  Proof.
+    intros Ec. unfold instr_pop_r16. rewrite Ec.
+    rewrite (bind_ok _ _ _ _ _ (dbg_code_ok c s _ eq_refl)).
+    assert (S1 : lift (sup_of_iced (i_op0_register i)) s = (Ok r, s)) by (unfold lift, r; rewrite sup_of_gpr16 by exact Hr; reflexivity).
+    rewrite (bind_ok _ _ _ _ _ S1). rewrite (bind_ok _ _ _ _ _ (rr64_rsp c s)). cbv zeta.
+    unfold emu_pop, load. change (wadd U64 (regs s RSP) 2) with ((regs s RSP + 2) mod 2 ^ 64).
+    change (Z.of_nat 2) with 2. change mem_read_16 with (mem_read_n 2).
+    destruct (RmP.mem_read_n_cases 2 ((regs s RSP + 2) mod 2 ^ 64) s HI) as [(v & E & R)|(e & E)]; rewrite E.
+    - rewrite (bind_ok _ _ _ _ _ E).
+      assert (Rv : 0 <= v < 2 ^ 16) by exact R.
+      rewrite (bind_ok _ _ _ _ _ (reg_write_16_ok c r v s Hwf Hr Rv)).
+      rewrite (bind_ok _ _ _ _ _ (rw64_rsp c _ _)). unfold ret. cbn [regs set_regs]. rewrite set_regs_set_regs. reflexivity.
+    - exists e. unfold bind. rewrite E. reflexivity.
+  Qed.
+
+  (* PUSH r16: the 16-bit register value is stored in two bytes at the old RSP, RSP becomes RSP-2 *)
+  Theorem push_r16_exact :
+    i_code i = C_Push_r16 ->
+    let v := rf_read (regs s) r in
+    (exists s', emu_push 2 v s = Some s' /\ instr_push_r16 c i s = (Ok tt, s')) \/
+    (emu_push 2 v s = None /\ exists e, instr_push_r16 c i s = (Err e, s)).
+  Proof.
+    intros Ec v. unfold instr_push_r16. rewrite Ec.
+    rewrite (bind_ok _ _ _ _ _ (dbg_code_ok c s _ eq_refl)).
+    assert (S1 : lift (sup_of_iced (i_op0_register i)) s = (Ok r, s)) by (unfold lift, r; rewrite sup_of_gpr16 by exact Hr; reflexivity).
+    rewrite (bind_ok _ _ _ _ _ S1).
+    rewrite (bind_ok _ _ _ _ _ (reg_read_16_ok c r s Hwf Hr)). fold v.
+    rewrite (bind_ok _ _ _ _ _ (rr64_rsp c s)).
+    assert (Rv : 0 <= v < 2 ^ 16) by (apply rf_read_range16; exact Hr).
+    unfold emu_push, store.
+    destruct (write_never_panics (regs s RSP) (le_bytes 2 v) s HI) as [[s1 E]|[e E]].
+    - left. rewrite E. eexists. split; [reflexivity|].
+      assert (E' : mem_write_16 (regs s RSP) v s = (Ok tt, s1)) by (rewrite typed_write_16_is_le by exact Rv; exact E).
+      rewrite (bind_ok _ _ _ _ _ E'). rewrite (bind_ok _ _ _ _ _ (rw64_rsp c _ s1)). unfold ret. reflexivity.
+    - right. rewrite E. split; [reflexivity|]. exists e.
+      assert (E' : mem_write_16 (regs s RSP) v s = (Err e, s)) by (rewrite typed_write_16_is_le by exact Rv; exact E).
+      unfold bind. rewrite E'. reflexivity.
+  Qed.
+End Stack16.
+
+(* PUSH imm16 *)
+Theorem push_imm16_exact c i s :
+  Inv (mem s) -> i_code i = C_Push_imm16 -> 0 <= i_immediate16 i < 2 ^ 16 ->
+  let v := i_immediate16 i in
+  (exists s', emu_push 2 v s = Some s' /\ instr_push_imm16 c i s = (Ok tt, s')) \/
+  (emu_push 2 v s = None /\ exists e, instr_push_imm16 c i s = (Err e, s)).
+Proof.
+  intros HI Ec R v. unfold instr_push_imm16. rewrite Ec.
+  rewrite (bind_ok _ _ _ _ _ (dbg_code_ok c s _ eq_refl)). cbv zeta.
+  assert (E : cast U16 U64 (i_immediate16 i) = v).
+  { unfold v, cast, Bits.sem, enc, modulus; cbn [signed width]. change (2 ^ 16) with 65536 in *.
+    change (2 ^ 64) with 18446744073709551616. rewrite ?(Z.mod_small (i_immediate16 i) 65536) by lia. rewrite ?Z.mod_small by lia. reflexivity. }
+  rewrite E. rewrite (bind_ok _ _ _ _ _ (rr64_rsp c s)).
+  unfold emu_push, store.
+  destruct (write_never_panics (regs s RSP) (le_bytes 2 v) s HI) as [[s1 W]|[e W]].
+  - left. rewrite W. eexists. split; [reflexivity|].
+    assert (E' : mem_write_16 (regs s RSP) v s = (Ok tt, s1)) by (rewrite typed_write_16_is_le by exact R; exact W).
+    rewrite (bind_ok _ _ _ _ _ E'). rewrite (bind_ok _ _ _ _ _ (rw64_rsp c _ s1)). unfold ret. reflexivity.
+  - right. rewrite W. split; [reflexivity|]. exists e.
+    assert (E' : mem_write_16 (regs s RSP) v s = (Err e, s)) by (rewrite typed_write_16_is_le by exact R; exact W).
+    unfold bind. rewrite E'. reflexivity.
+Qed.
